@@ -97,7 +97,7 @@ Proof. exact TargetsProofs.targets_model_is_translation_holds. Qed.
 Print Assumptions C13_targets_are_translation_of_source.
 
 (** The sequential Put and Delete handlers of Model/HubSeq.v ([seq_handle], defined through the CAS specification
-    [spec] of Model/Hub.v) are the translation of serve.rs `handle_put` / `handle_delete` as the source has them now,
+    [spec] of Model/Hub.v) are the translation of serve.rs `handle_put` / `handle_delete` / `handle_get` as the source has them now,
     read as functions of the served tree: refusal, the length and hash checks, the compare-and-swap on the CURRENT
     hash, which name the staging file is renamed onto, and the reply (Gen/HubDeleteGen.v, Proofs/TieHubDelete.v). *)
 Require Copia.Proofs.TieHubDelete.
